@@ -1069,6 +1069,10 @@ fn case(out: &mut Out, kind: &str, inp: &Input) {
         if zexcess > 0 {
             out.hist("decompressed_beyond_limit", match zexcess { 0..=65536 => "<=64KiB", 65537..=1048576 => "<=1MiB", _ => ">1MiB" });
         }
+        if let Some(big) = frames.iter().filter(|f| f.0 == 1 && inp.enc.is_some()).map(|f| f.1.len()).max().filter(|l| *l >= 4096) {
+            // not judged: spare capacity is the implementation's business
+            out.hist("largest_allocation_over_largest_compressed_frame", format!("{:.1}x", ran.max_alloc as f64 / big as f64));
+        }
         if ran.max_alloc > bound {
             fail(format!("a single allocation of {} bytes was requested (limit {}, {} data bytes received)", ran.max_alloc, lim, data.len()));
         }
@@ -2276,17 +2280,15 @@ fn main() {
             }
         }
     }
-    // zcap.*: an incompressible payload (compressed length ~ its length) with the frame header
-    // delivered first: the capacity decompress() reserves - (2*len / max(bs,1) + 1) * max(bs,1) - is
-    // at least 64 KiB and must show up in the allocation meter, for buffer sizes 1 (2*len + 1) and 5000;
-    // valid.large-compressed does the same for 8192.  (With a buffer size above the capacity the clause
-    // is vacuous - Streaming::new allocates buffer_size itself - such cases only show "no panic".)
+    // zcap.*: incompressible payloads under buffer sizes 0 / 1 / small / far above the length: the
+    // capacity arithmetic of decompress() must not panic and the message is delivered.  How much it
+    // reserves is NOT tied (buffer growth strategy is free); the ratio is recorded as a histogram.
     {
         let mut rr = Rng::new(a.seed ^ 0x2CA9);
         let sizes: &[(usize, usize)] = if a.thorough {
-            &[(0, 33_000), (1, 33_000), (5000, 36_000), (65_536, 36_000), (100_000, 4000), (1 << 20, 4000), (100_000, 60_000)]
+            &[(0, 33_000), (1, 33_000), (5000, 36_000), (65_536, 4000), (100_000, 4000), (1 << 20, 4000)]
         } else {
-            &[(1, 33_000), (5000, 33_000), (100_000, 4000)]
+            &[(0, 4000), (1, 4000), (5000, 12_000), (100_000, 4000)]
         };
         for (k, (bs, len)) in sizes.iter().enumerate() {
             let e = ENCS[k % 3];
@@ -2455,7 +2457,7 @@ fn main() {
 
     out.finish(
         IMPORTS,
-        "valid.*: streams of 0-6 messages (sizes 0,1,4,5,6, <=24, 64-300, around 8192) framed identity or compressed with the real gzip/deflate/zstd, every single cut position, all 2^(n-1) chunkings of a short body, byte-wise with Pending everywhere, random cuts / Pending / buffer sizes, ending plainly or with OK trailers - must deliver exactly the messages; mutated.*: the same streams with flag 2..255, corrupted length bytes, truncation at every byte, spliced / trailing garbage, compressed garbage, undecodable payloads (plain and compressed), flipped flag, declared lengths up to 2^32-1 without payload, flagged frames without negotiated encoding, body errors at every position, trailers OK / error / malformed / absent / followed by more frames; limit: L in {0,1,5,100,4 MiB default} x lengths L-1,L,L+1 x with / without payload x position 0..2; raw.*: random and header-biased byte strings; cancel.*: a CANCELLED body error at every byte position of small streams (request: clean end after every complete frame, later polls judged; response: reported), followed by nothing / Pending / more data; bomb.*: tiny compressed frames under a tight limit expanding to 400 KB (thorough 2 MB), whole and cut short; trailing.*: flag-1 frames of 40 / 70 / 140 KB whose compressed stream ends early inside the frame (zero padding = empty gRPC frames, well-formed small / big frames, swallowed later frames, random bytes), genuine frames after them: exactly the genuine messages, nothing behind the end of the stream parsed as a frame; zcap: incompressible payloads with buffer sizes 1 / 100000 / 2^20 (decompress() capacity against the allocation meter); api.*: the same valid / mutated / prost streams consumed through Streaming::message() and Streaming::trailers() in random order (model obs_api). Each stream is drained with exactly #events + #frames + 2 polls of fuel and then polled min(len,40)+10 more times. Non-trivial = at least 5 data bytes and (>= 2 data chunks or not a valid stream). Distinct = distinct (kind, model expression).",
+        "valid.*: streams of 0-6 messages (sizes 0,1,4,5,6, <=24, 64-300, around 8192) framed identity or compressed with the real gzip/deflate/zstd, every single cut position, all 2^(n-1) chunkings of a short body, byte-wise with Pending everywhere, random cuts / Pending / buffer sizes, ending plainly or with OK trailers - must deliver exactly the messages; mutated.*: the same streams with flag 2..255, corrupted length bytes, truncation at every byte, spliced / trailing garbage, compressed garbage, undecodable payloads (plain and compressed), flipped flag, declared lengths up to 2^32-1 without payload, flagged frames without negotiated encoding, body errors at every position, trailers OK / error / malformed / absent / followed by more frames; limit: L in {0,1,5,100,4 MiB default} x lengths L-1,L,L+1 x with / without payload x position 0..2; raw.*: random and header-biased byte strings; cancel.*: a CANCELLED body error at every byte position of small streams (request: clean end after every complete frame, later polls judged; response: reported), followed by nothing / Pending / more data; bomb.*: tiny compressed frames under a tight limit expanding to 400 KB (thorough 2 MB), whole and cut short; trailing.*: flag-1 frames of 40 / 70 / 140 KB whose compressed stream ends early inside the frame (zero padding = empty gRPC frames, well-formed small / big frames, swallowed later frames, random bytes), genuine frames after them: exactly the genuine messages, nothing behind the end of the stream parsed as a frame; zcap: incompressible payloads with buffer sizes 0 / 1 / 5000 / 100000 (no panic in decompress()'s capacity arithmetic; reservation sizes are not tied); api.*: the same valid / mutated / prost streams consumed through Streaming::message() and Streaming::trailers() in random order (model obs_api). Each stream is drained with exactly #events + #frames + 2 polls of fuel and then polled min(len,40)+10 more times. Non-trivial = at least 5 data bytes and (>= 2 data chunks or not a valid stream). Distinct = distinct (kind, model expression).",
         json!({}),
     );
 }
